@@ -205,6 +205,12 @@ fn line_row_addrs(secs: &[(String, Vec<u8>)]) -> Result<String, String> {
 
 /// `c12-lineaddr s8192,r,a4,r,e`: see lean/Gimli/Drv/C12.lean
 fn c12_lineaddr(ins: &str) -> Option<String> {
+    let prog = assemble_ins(ins)?;
+    c12_lineaddr_prog(&prog)
+}
+
+/// `s<addr>` set_address, `a<d>` advance_pc, `r` copy, `e` end_sequence
+pub fn assemble_ins(ins: &str) -> Option<Vec<u8>> {
     let mut prog = Vec::new();
     for t in ins.split(',') {
         match t.as_bytes().first()? {
@@ -223,7 +229,11 @@ fn c12_lineaddr(ins: &str) -> Option<String> {
             _ => return None,
         }
     }
-    let secs = assembled_line_unit_with(-5, 14, &prog);
+    Some(prog)
+}
+
+fn c12_lineaddr_prog(prog: &[u8]) -> Option<String> {
+    let secs = assembled_line_unit_with(-5, 14, prog);
     let rin = match line_row_addrs(&secs) {
         Ok(r) => r,
         Err(e) => return Some(format!("ok input-rejected:{e}")),
